@@ -39,6 +39,10 @@ def unit_transform(cmode, amode):
             nsel = None
         elif cmode == "idx":
             c = ArrData((m,), fresh_sel("cand", "i"), "i")
+            tq, uq = z3.Ints("pre_t pre_u")
+            # requires (established by _validate_data / check_indices): strictly increasing sample indices within range
+            st.assume(z3.ForAll([tq], z3.Implies(z3.And(0 <= tq, tq < m), z3.And(0 <= to_int(c.sel(tq)), to_int(c.sel(tq)) < n))))
+            st.assume(z3.ForAll([tq, uq], z3.Implies(z3.And(0 <= tq, tq < uq, uq < m), to_int(c.sel(tq)) < to_int(c.sel(uq)))))
             cand = st.alloc(c)
             ctx["cand"] = c
         else:
@@ -49,6 +53,8 @@ def unit_transform(cmode, amode):
             k = z3.Int("k")
             st.assume(k >= 0)
             a_ = ArrData((k,), fresh_sel("annot", "i"), "i")
+            tq = z3.Int("pre_a")
+            st.assume(z3.ForAll([tq], z3.Implies(z3.And(0 <= tq, tq < k), z3.And(0 <= to_int(a_.sel(tq)), to_int(a_.sel(tq)) < na))))   # requires: valid annotator indices
             ann = st.alloc(a_)
             ctx["ann"] = a_
             ctx["k"] = k
@@ -58,6 +64,15 @@ def unit_transform(cmode, amode):
             ann = st.alloc(a_)
             ctx["annm"] = a_
         ctx["args"] = [selfo, cand, ann, X, y]
+
+        def conc(ev):
+            from pyvc import cex
+            ca = st.get(cand) if cand is not None else None
+            aa = st.get(ann) if ann is not None else None
+            return {"family": "transform_cand_annot", "sig": "counter-model", "cmode": cmode, "amode": amode, "y": cex.arr(ev, yd),
+                    "missing": cex.missing_flags(ev, yd, MISSING, ml), "cand": None if ca is None else cex.arr(ev, ca) if cmode == "idx" else
+                    [[float(r_), 0.0] for r_ in range(cex.dim(ev, ca))], "ann": None if aa is None else cex.arr(ev, aa)}
+        E.default_concretize = conc
         return ctx
 
     def post(E, ctx, outs):
